@@ -7,7 +7,7 @@ ID = 'C19'
 EXPLANATION = ('Product template t_unrelated builds module m (which imports module n) once without and once with an extra module u that '
                'neither m nor n imports or references.  u declares, per flag, types whose short names collide with names m uses (R, the '
                'extern type S with another symbolic size, a type named like m\'s generated vftable struct, an enum K), may import m, '
-               'and is added before or after the others.  On every leaf where both builds are accepted the solver must refute that the '
+               'is added before or after the others, and lives at the top level or as a nested module of m or of n (`m::sub`, `n::sub`) that nobody imports.  On every leaf where both builds are accepted the solver must refute that the '
                'summaries of m or n differ in any way (paths bound, sizes, alignment, generated names, vftable items).')
 ASSUMPTIONS = ['the observed output is the semantic summary of the module (everything write_module reads for it); file bytes are not produced']
 
@@ -18,11 +18,11 @@ def bounds(tier):
 
 def assume(a, ps):
     return [a[0] == ps, z3.ULT(a[1], 1 << 12), z3.UGE(a[1], 1), z3.ULT(a[5], 1 << 12), z3.UGE(a[5], 1)] + \
-           [z3.ULE(a[i], 1) for i in (2, 3, 4, 6, 7, 8, 9, 10)] + [z3.ULE(a[11], 2), z3.ULE(a[12], 1), z3.Implies(a[12] != 0, a[8] != 0)]
+           [z3.ULE(a[i], 1) for i in (2, 3, 4, 6, 7, 8, 9, 10)] + [z3.ULE(a[11], 2), z3.ULE(a[12], 1), z3.Implies(a[12] != 0, a[8] != 0), z3.ULE(a[13], 2)]
 
 
 def slices(tier, rng):
-    out = [Slice('unrelated-ps%d' % ps, 't_unrelated', 13, lambda a, ps=ps: assume(a, ps), opts={'must_reach': ['ok/ok']}, ctx={'t': 'u'}) for ps in (4, 8)]
+    out = [Slice('unrelated-ps%d' % ps, 't_unrelated', 14, lambda a, ps=ps: assume(a, ps), opts={'must_reach': ['ok/ok']}, ctx={'t': 'u'}) for ps in (4, 8)]
     out.append(Slice('modtype-ps4', 't_modtype', 4, lambda a: [a[0] == 4, z3.ULT(a[1], 1 << 12), z3.UGE(a[1], 1), z3.ULT(a[2], 1 << 12), z3.UGE(a[2], 1), z3.ULE(a[3], 1)],
                      opts={'must_reach': ['ok/ok']}, ctx={'t': 'modtype'}))
     return out
@@ -63,8 +63,8 @@ def describe(template, args):
     ti = a[11] if len(a) > 11 else 0
     u = [x for x, f in (('type R', a[3]), ('extern type S (size %d)' % a[5], a[4]), ('type RVftable', a[6]), ('enum K', a[7]), ('use m', a[8]), ('impl R { #[address(4096)] pub fn from_u(&self); }', a[10] if len(a) > 10 else 0)) if f]
     return ('// pointer size %d\nmodule n: #[size(%d), align(1)] extern type S;\nmodule m: use n; #[packed] pub type R { %spub p: *const R, pub f: S } '
-            'pub enum K: u32 { A }\nmodule u (unrelated, added %s): %s') % (a[0], a[1], 'vftable { pub fn f(&self); }, ' if a[2] else '',
-                                                                           'first' if a[9] else 'last', ', '.join(u) or '(empty)') + (
+            'pub enum K: u32 { A }\nmodule %s (unrelated, added %s): %s') % (a[0], a[1], 'vftable { pub fn f(&self); }, ' if a[2] else '',
+                                                                           {1: 'm::sub', 2: 'n::sub'}.get(a[13] if len(a) > 13 else 0, 'u'), 'first' if a[9] else 'last', ', '.join(u) or '(empty)') + (
         '' if not (len(a) > 12 and a[12]) else '\n(m also declares the private `type P { pub z: u32 }` and `enum Q: u32 { A }`; u declares `pub type UP { pub qq: *const Q, pub pp: P, pub pad: u32 }`)') + (
         '' if not ti else '\n(m imports the type by path: `use n::S;`, declares `pub type S2 { pub w: u32 }` and R has `pub g: *const S2`%s)' % (
             '; in the second build n also declares `#[align(8)] pub type S2 { pub a: u64, pub b: u64 }`' if ti == 2 else ''))
